@@ -80,10 +80,25 @@ def match_recheck_rule(res, fx, rule='GUARD'):
         if paths and not inner_count_seen:
             bypass_ok = False
             howb = 'the callback is reachable without MatchesNode() on %d path(s) that test only GetEntries().GetNumItems() (number of distinct pattern depths)' % len(paths)
+        # exactly one pattern = one depth table AND one pattern in it: every bypass path takes the true edge of a `== 1` test on each of the two counts
+        def count_is_one(cid, truth, which):
+            cn_ = cc.nodes.get(cid)
+            if cn_ is None:
+                return False
+            for (l_, op_, r_) in A.rel_forms(cn_, truth):
+                if op_ == '==' and r_.get('v') == 1 and l_['k'] == 'CXXMemberCallExpr' and (l_.get('q') or '').endswith('::GetNumItems') and l_.receiver() is not None:
+                    is_outer = 'GetEntries' in l_.receiver().text() and 'GetValue' not in l_.receiver().text()
+                    if (which == 'outer') == is_outer:
+                        return True
+            return False
+        for d in paths:
+            if not (any(count_is_one(cid, t, 'outer') for cid, t in d.items()) and any(count_is_one(cid, t, 'inner') for cid, t in d.items())):
+                bypass_ok = False
+                howb = howb or 'a path reaches the callback without MatchesNode() and without having established both GetEntries().GetNumItems() == 1 and <depth table>.GetNumItems() == 1'
     res.ob(rule, cc.where(mn[0]), 'the shortcut around the full-path re-check MatchesNode() requires exactly one pattern (a test on the per-depth pattern table, not only on the number of depths)', bypass_ok,
            how=howb, function=cc.q, key=rule + '|%s|match-recheck' % cc.q,
-           message='CheckChildForTraversal skips MatchesNode() whenever GetEntries().GetNumItems() == 1, which counts distinct pattern DEPTHS: two patterns of the same depth (j*/k*, k*/j*) are matched '
-                   'clause by clause and "conspire" to select jeremy/jenny, so the Message reaches a session that owns no matching node')
+           message='CheckChildForTraversal can skip MatchesNode() when there is more than one pattern (it must establish one pattern depth AND one pattern of that depth): patterns are matched clause '
+                   'by clause and "conspire" — j*/k* with k*/j* select jeremy/jenny; a/x with b/*/y select b/x — so the Message reaches a session that owns no matching node')
 
 
 def run(res, tier):
@@ -111,7 +126,7 @@ def run(res, tier):
         q = c.get('q') or ''
         if re.search(r'NodePathMatcher::DoTraversal$', q):
             return bool(c.args()) and any(x.get('n') == 'PassMessageCallbackFunc' for x in c.args()[0].walk())
-        return bool(re.search(r'^muscle::DumbReflectSession::MessageReceivedFromGateway$', q))
+        return bool(re.search(r'^muscle::DumbReflectSession::MessageReceivedFromGateway$|::BroadcastToAllSessions$', q))
     # the overwrite and the routing calls may sit in the dispatcher itself or in private helpers it calls (msa/ip.py): what is required is their order as seen from the dispatcher
     rep = IP.must_sites(fx, f, is_rep, SC)
     routes = IP.may_sites(fx, f, is_route, SC)
@@ -178,6 +193,15 @@ def run(res, tier):
             ok = ok and good
         res.ob('GUARD', f3.where(dl[0]), 'BroadcastToAllSessions skips the sender unless toSelf', ok, how='%d paths checked' % len(paths), function=f3.q, key='GUARD|%s|self' % f3.q,
                message='BroadcastToAllSessions can deliver a broadcast back to its sender although toSelf is false')
+    # every broadcast of a client's Message made from the session classes derives toSelf from the reflect-to-self routing flag (the parameter defaults to true)
+    for fb in sorted((g_ for g_ in fx.funcs.values() if g_.full and re.search(r'^muscle::(StorageReflectSession|DumbReflectSession)::MessageReceivedFromGateway$', g_.q)), key=lambda g_: (g_.file, g_.line)):
+        for c in P.calls(fb, r'::BroadcastToAllSessions$'):
+            a = c.args()
+            x = A.strip_casts(a[2]) if len(a) >= 3 else None
+            okb = x is not None and x['k'] != 'CXXDefaultArgExpr' and any(y.is_call() and (y.get('q') or '').endswith('::IsRoutingFlagSet') and y.args() and y.args()[0].get('v') == rts for y in A.walk_through_locals(fb, x))
+            res.ob('GUARD', fb.where(c), '%s: BroadcastToAllSessions(…, toSelf = IsRoutingFlagSet(REFLECT_TO_SELF))' % fb.q.split('::')[-2], okb, function=fb.q, key='GUARD|%s|broadcast-toself' % fb.q,
+                   message='%s broadcasts a client Message with toSelf = `%s` instead of the reflect-to-self routing flag: the sender gets its own Message back although reflect-to-self is off'
+                           % (fb.q, a[2].text(30) if len(a) >= 3 else 'default (true)'))
     f4 = fx.fn1('muscle::DumbReflectSession::MessageReceivedFromGateway')
     ok = False
     for c in P.calls(f4, r'::BroadcastToAllSessions$'):
